@@ -722,7 +722,7 @@ func runCase(t *testing.T, in *Input) (obs observed) {
 	obs.Jobs = snapshotJobs(ct, sched)
 
 	for k := range in.Fires {
-		fo := fireSlot(ctx, e, ct, sched, &in.Fires[k])
+		fo := fireSlot(ctx, e, ct, sched, &in.Fires[k], nil, 0)
 		obs.Fires = append(obs.Fires, fo)
 	}
 	return obs
@@ -730,16 +730,26 @@ func runCase(t *testing.T, in *Input) (obs observed) {
 
 // fireSlot runs the jobs of one slot in turn, as the scheduler would when their times arrive:
 // prepare (during the previous slot), message, aggregation.
-func fireSlot(ctx context.Context, e *env, ct *mocks.ChainTime, sched *mocks.RecScheduler, f *Fire) fireObs {
+func fireSlot(ctx context.Context, e *env, ct *mocks.ChainTime, sched *mocks.RecScheduler, f *Fire, mid func(), midStage int) fireObs {
 	e.fire = f
 	e.selCall, e.rootCall, e.submitted, e.contribs = nil, nil, nil, nil
 	var fo fireObs
 	if f.Slot > 0 {
 		ct.SetSlot(f.Slot - 1)
 	}
-	if sched.Fire(ctx, jobName(0, f.Slot)) {
+	prepared := sched.Fire(ctx, jobName(0, f.Slot))
+	var msgJob *mocks.Job
+	if prepared {
+		msgJob, _ = sched.Get(jobName(1, f.Slot))
+	}
+	if mid != nil && midStage != 2 {
+		// something else happens between the slot's prepare job and its message job
+		mid()
+		e.fire = f
+	}
+	if prepared {
 		fo.SelCall = e.selCall
-		if j, ok := sched.Get(jobName(1, f.Slot)); ok {
+		if j := msgJob; j != nil {
 			tm := int64(j.Time.Sub(ct.Genesis))
 			fo.MsgJob = &tm
 			ct.SetSlot(f.Slot)
@@ -748,7 +758,14 @@ func fireSlot(ctx context.Context, e *env, ct *mocks.ChainTime, sched *mocks.Rec
 				fo.RootCall = &rootCallObs{Accts: e.rootCall.accts, Epoch: e.rootCall.epoch, Root: e.rootCall.root}
 			}
 			fo.Submitted = e.submitted
-			if j, ok := sched.Get(jobName(2, f.Slot)); ok {
+			aggJob, ok := sched.Get(jobName(2, f.Slot))
+			if mid != nil && midStage == 2 {
+				// ... or between its message job and its aggregation job
+				mid()
+				e.fire = f
+				mid = nil
+			}
+			if j := aggJob; ok {
 				tm := int64(j.Time.Sub(ct.Genesis))
 				fo.AggJob = &tm
 				sched.Fire(ctx, jobName(2, f.Slot))
@@ -756,6 +773,9 @@ func fireSlot(ctx context.Context, e *env, ct *mocks.ChainTime, sched *mocks.Rec
 				fo.ContribsS = contribTerms(e.contribs)
 			}
 		}
+	}
+	if mid != nil && midStage == 2 {
+		mid() // the slot's chain ended before the aggregation stage: the operation still takes place
 	}
 	return fo
 }
@@ -807,10 +827,23 @@ func dutyValidators(in *Input) []uint64 {
 func fireInTerm(in *Input, f *Fire) string {
 	// hash8 of the selection proof the signer hands out for every member and every subcommittee
 	e := &env{in: in, fire: f}
+	// (for the subcommittees of the member's positions: the only entries the model and the
+	// predicate look up)
 	var table []string
+	per := in.Par.Size / in.Par.Subnets
 	for _, v := range dutyValidators(in) {
 		for c := uint64(0); c < in.Par.Subnets; c++ {
-			table = append(table, "("+N(v)+", "+N(c)+", "+N(hash8(e.selSig(v, f.Slot, c)))+")")
+			used := false
+			for _, d := range in.Duties {
+				for _, pos := range d.Pos {
+					if d.V == v && per > 0 && pos/per == c {
+						used = true
+					}
+				}
+			}
+			if used {
+				table = append(table, "("+N(v)+", "+N(c)+", "+N(hash8(e.selSig(v, f.Slot, c)))+")")
+			}
 		}
 	}
 	return Record("f_slot", N(f.Slot), "f_root", OptN(f.Root), "f_sel_err", Bool(f.SelErr), "f_sel_zero", listN(f.SelZero),
@@ -894,7 +927,7 @@ func term(id uint64, in *Input, obs *observed) string {
 	}
 	hist, hobs := histTerms(in, obs)
 	return Record("c_id", N(id), "c_par", par, "c_in", sin, "c_fires", List(fires), "c_out", sout, "c_fouts", List(fouts), "c_agg", agg,
-		"c_hist", hist, "c_hobs", hobs)
+		"c_hist", hist, "c_hruns", hobs)
 }
 
 // ---------------------------------------------------------------------------------------------
@@ -1312,7 +1345,6 @@ func genFire(r *Rand, p Params, s uint64, vs []uint64, duties []Duty, tag func(s
 	return f
 }
 
-
 func genAgg(r *Rand) Input {
 	p := genParams(r)
 	in := Input{Par: p, Tags: []string{"aggregate-direct"}}
@@ -1375,6 +1407,8 @@ func TestC15(t *testing.T) {
 			"or a history of 3-9 operations on one controller and one scheduler (calls for this and the next period, refreshes of a "+
 			"period's duties directly or through head events with a changed dependent root, slots fired in between); "+
 			"non-trivial = at least one sync committee message or contribution was submitted by the implementation; distinct by full case text")
+	// reading a case costs coqc far more than evaluating it; smaller shards are read in parallel
+	col.ShardSize = 160
 	n := EnvInt("VERIF_N", 600)
 	var ins []Input
 	for _, in := range LoadInputs[Input]("C15") {
